@@ -26,6 +26,8 @@ Rule ==
     /\ (Ev.tag = "wedge U=max")    => Ev.words = 2                    \* ~f[i] < pdf(x) just above x[i+1]: accepted
     /\ (Ev.tag = "tail x~0 y=min") => (Ev.words = 3 /\ Within(Ev.absout, RLim(Ev.dist), 2))
     /\ (Ev.tag = "tail x big y~0") => Ev.words >= 5                   \* -2y < x^2: draw again
+    \* a rejected wedge proposal is followed by a fresh word whose low 8 bits select the layer of the next iteration
+    /\ (Ev.tag = "relayer")        => (Ev.words = 3 /\ Ev.jfound = Ev.l2)
     /\ (Ev.tag = "tail U=max")     => (Ev.words = 2 /\ Within(Ev.absout, RLim(Ev.dist), 2))
 
 TInit == l = 1
